@@ -123,12 +123,13 @@ def normalize_type(dtype):
     functions does not.
 
     :param dtype: odml.DType or string for which valid_type returned True, or None.
-    :returns: odml.DType, lower case string or None.
+    :returns: lower case string or None.
     """
-    if dtype is None or isinstance(dtype, DType):
+    if dtype is None:
         return dtype
 
-    return dtype.lower()
+    # DType members are str as well; the plain string is what the file formats can hold.
+    return str(dtype.lower())
 
 
 def get(string, dtype=None):
